@@ -267,6 +267,20 @@ func (e *Engine) collectHavoc(nodes []ast.Node, st *State) *havocSet {
 						if nn, ok := msig.Recv().Type().(*types.Named); ok {
 							if _, isIface := nn.Underlying().(*types.Interface); isIface {
 								ic := e.w.IfaceContracts[shortPkg(fn.Pkg().Path())+"."+nn.Obj().Name()+"."+fn.Name()]
+								if ic != nil && ic.Attrs["counts"] != "" {
+									// the method advances ghost call counters of its receiver (attr counts = name, ...)
+									tmp := st.clone()
+									nob := len(e.obls)
+									func() {
+										defer func() { recover() }()
+										if b, ok := e.eval(se.X, tmp).(VTerm); ok {
+											for _, cn := range strings.Split(ic.Attrs["counts"], ",") {
+												h.mem["gcnt:"+strings.TrimSpace(cn)+":"+b.T.String()] = true
+											}
+										}
+									}()
+									e.obls = e.obls[:nob]
+								}
 								if ic != nil && len(ic.byKind("modifies", "")) > 0 {
 									tmp := st.clone()
 									nob := len(e.obls)
@@ -308,6 +322,9 @@ func (e *Engine) collectHavoc(nodes []ast.Node, st *State) *havocSet {
 								h.mem["csvfpr:"+b.T.String()] = true
 								h.mem["jsoncnt:"+b.T.String()] = true
 								h.mem["sqlcur:"+b.T.String()] = true
+								if fn.Pkg().Path() == "encoding/csv" {
+									h.mem["csvpending:"+b.T.String()] = true
+								}
 							}
 						}()
 						e.obls = e.obls[:nob]
@@ -490,6 +507,8 @@ func (e *Engine) applyHavoc(h *havocSet, st *State) {
 		switch {
 		case len(k) > 7 && k[:7] == "closed:":
 			st.mem[k] = e.fresh("closed", SBool)
+		case strings.HasPrefix(k, "csvpending:"):
+			st.mem[k] = e.fresh("csvpending", SBool)
 		default:
 			t := e.fresh(sanitize(k), SInt)
 			st.mem[k] = t
